@@ -67,7 +67,7 @@ inline bool ref_basis(const RefDim& d, double x, int deriv, BasisSet& out) {
 // product of basis values can take (the library multiplies basis values dimension by dimension in
 // the working precision, so a partial product outside the representable range over- or underflows
 // although the final sum would be representable).
-struct RefRange { LD prefix_max = 1, prefix_min = 1; };
+struct RefRange { LD prefix_max = 1, prefix_min = 1, elem_max = 0, elem_min = INFINITY; };
 inline bool ref_eval(const std::vector<RefDim>& dims, const std::vector<float>& coeff,
                      const double* x, const int* deriv, VM& out, uint64_t* nterms = nullptr, RefRange* rr = nullptr) {
   size_t nd = dims.size();
@@ -75,11 +75,12 @@ inline bool ref_eval(const std::vector<RefDim>& dims, const std::vector<float>& 
   for (size_t d = 0; d < nd; d++)
     if (!ref_basis(dims[d], x[d], deriv ? deriv[d] : 0, bs[d])) return false;
   if (rr) {
-    LD pmax = 1, pmin = 1; rr->prefix_max = 1; rr->prefix_min = 1;
+    LD pmax = 1, pmin = 1; rr->prefix_max = 1; rr->prefix_min = 1; rr->elem_max = 0; rr->elem_min = INFINITY;
     for (size_t d = 0; d < nd; d++) {
       LD bmax = 0, bmin = INFINITY;
       for (auto& v : bs[d].vals) { bmax = std::max(bmax, v.m); if (v.m > 0) bmin = std::min(bmin, std::min(v.m, fabsl(v.v) > 0 ? fabsl(v.v) : v.m)); }
       if (bmax == 0) { bmax = 1; bmin = 1; }
+      rr->elem_max = std::max(rr->elem_max, bmax); rr->elem_min = std::min(rr->elem_min, bmin);
       pmax *= bmax; pmin *= bmin;
       rr->prefix_max = std::max(rr->prefix_max, pmax); rr->prefix_min = std::min(rr->prefix_min, pmin);
     }
